@@ -200,7 +200,7 @@ COUNTS = {"day": list(range(0, 30)) + [30, 31, 59, 60, 61, 89, 90, 364, 365, 366
 
 
 def generate(rng, tier):
-    n = 520 if tier == "quick" else 8000
+    n = 1500 if tier == "quick" else 12000
     now_year = datetime.datetime.utcnow().year
     cases = []
 
@@ -369,17 +369,16 @@ def known_class(c, rec, verdict, known):
     if not m.get("kind", "").startswith("arith-"):
         return None
     unit, n, op, ymd = m["unit"], m["n"], m["op"], m.get("ymd")
+    lines = last_lines(rec)
+    failed = bool(lines) and len(lines) == 1 and line_value(lines[0])[0] == "err"
     cls = None
     if unit in ("day", "week") and n * (1 if unit == "day" else 7) >= 30:
         cls = CLASS_QUANT                 # 30 days or more are re-read as 365-day years and 30-day months
-    elif unit == "month" and n >= 12 and n % 12 != 0 and ymd and (ymd[1], ymd[2]) == (2, 29):
+    elif unit == "month" and n >= 12 and n % 12 != 0 and ymd and (ymd[1], ymd[2]) == (2, 29) and failed:
         # the years are applied first: the intermediate 29 feb does not exist and the calculation fails
-        lines = last_lines(rec)
-        if lines and len(lines) == 1 and line_value(lines[0])[0] == "err":
-            cls = CLASS_QUANT
-    elif unit == "month" and op == "-" and n % 12 != 0:
-        if ymd and ymd[1] - n % 12 <= 0:
-            cls = CLASS_BORROW            # the month wraps below january but the year is not decreased
+        cls = CLASS_QUANT
+    elif unit == "month" and op == "-" and n % 12 != 0 and ymd and ymd[1] - n % 12 <= 0 and not failed:
+        cls = CLASS_BORROW                # the month wraps below january but the year is not decreased
     return cls if cls in ids else None
 
 
